@@ -461,6 +461,20 @@ class Exec:
 
     def st_Assign(self, st, fr):
         v = self.eval(st.value, fr)
+        if isinstance(v, list) and not v and len(st.targets) == 1 and isinstance(st.targets[0], ast.Name) and self.top is not None \
+                and st.targets[0].id in getattr(self.top, "symbolic_lists", ()) and self.cur_func is not None \
+                and self.cur_func.key == self.top.key:
+            # a list that closures under contract append to: symbolic length (declared by the contract)
+            sl = self.top.symbolic_lists
+            kind = sl.get(st.targets[0].id, "real") if isinstance(sl, dict) else "real"
+            v = SList.empty(z3.IntSort() if kind == "int" else z3.RealSort(), nan=(kind != "int"))
+            if kind == "int":
+                from .values import memF
+                q_ = z3.Int(fresh_name("mq"))
+                self.axiom(z3.ForAll([q_], z3.Not(memF(v.term, v.length, q_))))
+            hook = getattr(self.top, "list_hook", None)
+            if hook is not None:
+                hook(self, st.targets[0].id, v)
         for t in st.targets:
             self.assign(t, v, fr)
 
@@ -719,6 +733,12 @@ class Exec:
         heap_mods = mutated_names(st.body) | set(c.loop_modifies.get(k, []))
         self._only_augassigned = augassigned_only(st.body)
         self._loop_kinds = c.loop_kinds.get(k, {})
+        for ex in mutated_exprs(st.body):
+            tgt = self.eval(ex, fr)
+            if isinstance(tgt, NdArr):
+                self._havoc_cell(tgt, ast.unparse(ex))
+            else:
+                raise Unsupported("loop writes through %s" % ast.unparse(ex))
         attr_mods = mutated_attrs(st.body)
         self.havoc(fr, mods, heap_mods - {b for b, _ in attr_mods if self._is_obj(b, fr)}, pre)
         for b, attr in sorted(attr_mods):
@@ -962,6 +982,9 @@ class Exec:
             nm = ent[1]
             if self.registry.is_module(nm):
                 return ExternMod(nm)
+            from .npmodel import CONSTS
+            if nm in CONSTS:
+                return CONSTS[nm]
             return self.registry.extern(nm)
         if ent[0] == "repomod":
             return RepoModRef(self.repo.module(ent[1]))
@@ -1715,6 +1738,8 @@ def mutated_names(body):
                 tg = [n.target]
             for t in tg:
                 for x in ([t] if not isinstance(t, (ast.Tuple, ast.List)) else t.elts):
+                    if isinstance(x, ast.Subscript) and isinstance(x.value, ast.Attribute):
+                        continue      # store into an array reached through attributes: see mutated_exprs
                     if isinstance(x, (ast.Subscript, ast.Attribute)):
                         b = base_name(x)
                         if b:
@@ -1725,6 +1750,23 @@ def mutated_names(body):
                 b = base_name(n.func.value)
                 if b:
                     out.add(b)
+    return out
+
+
+def mutated_exprs(body):
+    """expressions `obj.attr...` whose array is written by a subscript store in the loop body"""
+    out = []
+    for st in body:
+        for n in [st] + list(walk_no_nested_stmt(st)):
+            tg = []
+            if isinstance(n, ast.Assign):
+                tg = n.targets
+            elif isinstance(n, ast.AugAssign):
+                tg = [n.target]
+            for t in tg:
+                for x in ([t] if not isinstance(t, (ast.Tuple, ast.List)) else t.elts):
+                    if isinstance(x, ast.Subscript) and isinstance(x.value, ast.Attribute):
+                        out.append(x.value)
     return out
 
 
